@@ -31,6 +31,7 @@ SPEC = {
                  "C17_unlock_unheld_panics", "C17_unlock_held_ok", "C17_monitor_refines_rwlock", "C17_unlock_unheld_old_witness",
                  "C17_dag_exclusion", "C17_dag_deadlock_free", "C17_dag_no_deadlock", "C17_dag_wellbracketed_no_panic",
                  "C17_dag_unlock_unheld_panics", "C17_dag_unlock_wrong_mode_old_witness",
+                 "C17_dag_composed_monitors", "C17_dag_composed_exclusion", "C17_dag_composed_deadlock_free", "C17_dag_composed_no_panic",
                  "C17_wait_iff_returns_only_if", "C17_wait_iff_no_lost_wakeup", "C17_wait_iff_quiescent",
                  "C17_driver_outcomes_reachable", "C17_skeleton_starvingmutex", "C17_skeleton_dagmutex", "C17_skeleton_counter", "C17_skeleton_stack"],
     "trusted_base": [
@@ -45,8 +46,11 @@ SPEC = {
     "modelled": [
         "StarvingMutex.Lock/Unlock/RLock/RUnlock as micro-steps around the internal mutex with separate Signal/Broadcast steps",
         "debug.GetEnabled() deadlock-detection goroutines are not modelled (debug mode off)",
-        "DAGMutex: critical sections of d.Mutex and the unregister+unlock pair are single steps over abstract per-entity locks; "
-        "that the real per-entity StarvingMutex implements such a lock is C17_monitor_refines_rwlock (safety) + C17_no_lost_wakeup_quiescent (blocked only by a holder); the composition argument itself is not mechanised",
+        "DAGMutex, composed model (Hive/Model/SyncMutexComp.lean): registry mutex, mutexes/consumerCounter maps, heap of StarvingMutex "
+        "monitors stepped by mxStep, registration before blocking, detached objects; C17_dag_composed_* are proved on it directly; "
+        "the body of a d.Mutex critical section (no blocking call inside) is one step after the acquisition step",
+        "DAGMutex, abstract model (Hive/Model/SyncMutexDag.lean, used by the driver for the arrival-order tie and by C17_dag_*): "
+        "per-entity abstract reader/writer locks, unregister+unlock as one step",
         "Counter subscribers and Stack element values are not modelled (only the value / size)",
         "liveness is stated as invariants (every eligible waiter has a pending notifier) and absence of deadlock, not as fairness-based eventuality",
     ],
@@ -55,14 +59,14 @@ SPEC = {
                 "StarvingMutex exclusion (C17_exclusion, C17_exclusion_state), no lost wake-up as invariants Phi_W/Phi_R plus the "
                 "quiescent form and deadlock freedom for well-bracketed scripts (C17_no_lost_wakeup, C17_no_lost_wakeup_quiescent, "
                 "C17_deadlock_free), unlock-of-unheld panics without touching the state (C17_unlock_unheld_panics), DAGMutex exclusion "
-                "and deadlock freedom for acquisition along an order (C17_dag_exclusion, C17_dag_deadlock_free), Counter/Stack waits "
+                "and deadlock freedom for acquisition along an order, both over the system composed of StarvingMutex monitors + registry "
+                "(C17_dag_composed_exclusion, C17_dag_composed_deadlock_free) and over abstract per-entity locks (C17_dag_exclusion, C17_dag_deadlock_free), Counter/Stack waits "
                 "return only when and whenever their condition holds (C17_wait_iff_*). Tie: exhaustive/random scripted arrival orders "
                 "on the real objects with quiescence observed through the sync.Cond notify lists, every observation checked by the "
                 "compiled Lean models (set of admissible quiescent outcomes over all interleavings); stress with in-critical-section "
                 "overlap detectors and traces checked by the Lean exclusion / wait predicates; sequential panic matrix; regenerated "
                 "synchronisation skeletons as proof obligations.",
-        "note": "Trusted: Lean kernel; the hand-written models and Go's sync semantics as modelled; DAGMutex theorems are over abstract "
-                "per-entity locks (bridged by the StarvingMutex theorems); liveness as invariants + deadlock freedom, no fairness.",
+        "note": "Trusted: Lean kernel; the hand-written models and Go's sync semantics as modelled; the executable DAG oracle of the tie is the abstract-lock model (the composed model is used for the theorems); liveness as invariants + deadlock freedom, no fairness.",
         "technique": "Lean 4 inductive invariants over interleaving protocol models (counting invariants, obligation-holder invariants) "
                      "+ conformance of recorded arrival-order observations and stress traces + regenerated skeleton obligations",
     },
